@@ -44,6 +44,7 @@ def run(ctx):
     ctx.do(rule_map_agreement)
     ctx.do(rule_validation_before_write)
     ctx.do(rule_composite_registrations)
+    ctx.do(rule_defining_extension_added)
     ctx.do(rule_version_scope)
     ctx.do(rule_builtin_parity)
     ctx.do(rule_type_grammar)
@@ -268,6 +269,51 @@ def rule_composite_registrations(ctx, rule_id="C19.composite-registration"):
                       expected="only plain assignments between the extension registration and the try", found=[short(x, 80) for x in risky])
     if n < 2:
         raise AnalysisError("fewer than 2 decorators making an extension + a type registration found (%d)" % n)
+
+
+def rule_defining_extension_added(ctx, rule_id="C19.composite-registration"):
+    """A type registered with extension_name= carries its defining extension on every instance.  The builders ADD it to what
+    the caller (or the parser) gave: the `extensions` value handed to the base constructor derives from kwargs['extensions']
+    on every path (an empty literal stands for "none given").  A fresh one-entry dictionary silently drops every other
+    extension of the instance -- on parse -> serialize, on construction, on new_version."""
+    run = ctx.run
+    prog = ctx.prog
+    from ..cfg import ReachingDefs, cfg_of
+    from ..forward import flow_of
+    fi = prog.functions.get("stix2.custom::_with_extension")
+    if fi is None:
+        raise AnalysisError("anchor missing: stix2.custom::_with_extension (where the defining extension is added)")
+    g = cfg_of(fi)
+    rd = ReachingDefs(g, fi.all_param_names())
+    kwp = fi.params[1]
+    uses = [k for c in body_walk(fi.node) if isinstance(c, ast.Call) for k in c.keywords if k.arg == "extensions"]
+    if not uses:
+        raise AnalysisError("_with_extension: no call hands `extensions=` on")
+    fl = flow_of(fi)
+    for k in uses:
+        st_ = k.value
+        while not isinstance(st_, ast.stmt):
+            st_ = st_.parent
+        bad = []
+        vals = [k.value]
+        if isinstance(k.value, ast.Name):
+            vals = [v for _d, v in rd.reaching(g.node_of(st_), k.value.id)]
+        for v in vals:
+            if not isinstance(v, ast.AST):
+                bad.append(str(v))
+                continue
+            if isinstance(v, ast.Dict) and not v.keys:
+                continue
+            if isinstance(v, ast.Call) and norm(v.func) == "dict" and not v.args and not v.keywords:
+                continue
+            pr = fl.prov(v)
+            if kwp not in pr.params:
+                bad.append(short(v, 80))
+        run.check(not bad, rule_id, key(fi.module.relpath, fi.qualname, "defining-extension-added-to-the-given-ones"),
+                  "the `extensions` value handed to the base constructor does not derive from the caller's extensions on every path: "
+                  "instances of a type registered with extension_name= lose every other extension (parse -> serialize drops it)",
+                  file=fi.module.relpath, line=k.value.lineno, function=fi.qualname,
+                  expected="a copy of kwargs['extensions'] with the defining extension added", found=bad)
 
 
 def rule_validation_before_write(ctx):
